@@ -178,7 +178,20 @@ def run (ctx):
   ctx.analysed(mw); ctx.analysed(eq)
   other = mw.params[1]
   tested = set()
+  loc_ = {}; cnt_ = {}
+  for st_ in walk_no_nested(mw.node):
+    if isinstance(st_, ast.Assign) and len(st_.targets) == 1:
+      t_ = st_.targets[0]
+      prs_ = list(zip(t_.elts, st_.value.elts)) if isinstance(t_, ast.Tuple) and isinstance(st_.value, ast.Tuple) and len(t_.elts) == len(st_.value.elts) else [(t_, st_.value)]
+      for tt_, vv_ in prs_:
+        if isinstance(tt_, ast.Name): loc_.setdefault(tt_.id, []).append((st_.lineno, vv_))
   def pair (a, b, site):
+    # a local that holds a field of one side (`mine, others = self.f, other.f`)
+    def latest_ (nm_):
+      ds_ = [(l_, v_) for l_, v_ in loc_.get(nm_, []) if l_ <= getattr(site, 'lineno', 0)]
+      return max(ds_, key=lambda x_: x_[0])[1] if ds_ else None
+    if isinstance(a, ast.Name) and latest_(a.id) is not None: a = latest_(a.id)
+    if isinstance(b, ast.Name) and latest_(b.id) is not None: b = latest_(b.id)
     fa = a.attr if isinstance(a, ast.Attribute) else None; fb = b.attr if isinstance(b, ast.Attribute) else None
     if fa is None or fb is None: return
     va, vb = norm(a.value), norm(b.value)
@@ -193,6 +206,15 @@ def run (ctx):
     if call_name(c) == 'match_fail' and len(c.args) == 2: pair(c.args[0], c.args[1], c)
   for n in walk_no_nested(mw.node):
     if isinstance(n, ast.Compare) and len(n.ops) == 1 and isinstance(n.ops[0], (ast.NotEq, ast.Eq)): pair(n.left, n.comparators[0], n)
+  # the same comparison written once over the field names: for name in (<literals>): getattr(self, name) vs getattr(other, name)
+  for lp in walk_no_nested(mw.node):
+    if isinstance(lp, ast.For) and isinstance(lp.target, ast.Name) and isinstance(lp.iter, (ast.Tuple, ast.List)) and all(isinstance(e_, ast.Constant) and isinstance(e_.value, str) for e_ in lp.iter.elts):
+      ga = [c for c in ast.walk(lp) if isinstance(c, ast.Call) and call_name(c) == 'getattr' and len(c.args) >= 2 and isinstance(c.args[1], ast.Name) and c.args[1].id == lp.target.id]
+      recv = set(norm(c.args[0]) for c in ga)
+      if {'self', other} <= recv:
+        for e_ in lp.iter.elts:
+          if e_.value in fields: tested.add(e_.value)
+          elif e_.value.startswith('get_') and e_.value[4:] in fields: tested.add(e_.value[4:])
   for side in ('src', 'dst'):
     g1 = [c for c in calls_in(mw.node) if call_name(c) == 'get_nw_' + side]
     if any(norm(c.func.value) == 'self' for c in g1) and any(norm(c.func.value) == other for c in g1): tested.add('nw_' + side)
